@@ -199,6 +199,10 @@ func (node *Node) ProcessBlock(ctx context.Context, block wire.Block) error {
 	node.blockLock.Lock()
 	defer node.blockLock.Unlock()
 
+	// Don't process a block while the headers handler is reverting the chain for a reorg.
+	node.state.LockProcessing()
+	defer node.state.UnlockProcessing()
+
 	header := block.GetHeader()
 	hash := header.BlockHash()
 	start := time.Now()
@@ -222,9 +226,15 @@ func (node *Node) ProcessBlock(ctx context.Context, block wire.Block) error {
 		return ErrBlockNotAdded
 	}
 
-	// Add to repo
-	if err := node.blocks.Add(ctx, &header); err != nil {
+	// Add to repo. The chain can have been reverted by the headers handler since the previous hash
+	// was checked above, so it is checked again together with the add.
+	added, err := node.blocks.AddNext(ctx, &header)
+	if err != nil {
 		return errors.Wrap(err, "add block")
+	}
+	if !added {
+		logger.Warn(ctx, "Not next block anymore : %s", hash)
+		return ErrBlockNotNextBlock
 	}
 
 	// If we are in sync we can save after every block
@@ -236,7 +246,6 @@ func (node *Node) ProcessBlock(ctx context.Context, block wire.Block) error {
 
 	// Get unconfirmed "relevant" txs
 	var unconfirmed []bitcoin.Hash32
-	var err error
 	// This locks the tx repo so that propagated txs don't interfere while a block is being
 	//   processed.
 	unconfirmed, err = node.txs.GetUnconfirmed(ctx)
